@@ -167,6 +167,9 @@ def build_stream(sc, repo, only_conn=None):
     def hook(it, produced):
         if it[0] == 'cmd':
             st.steps.append(('cmd', it[1]))
+        elif it[0] == 'close':
+            # a backend closes a connection in the middle of the session (what wl_connection_destroy does in GDB mode)
+            st.steps.append(('close', w.conns[it[1] % len(w.conns)].conn_tag if dialect['conn'] else 'PARSED'))
         elif it[0] == 'flush':
             st.steps.append(('flush',))
         elif produced is not None:
